@@ -114,6 +114,10 @@ def cases(tier, seed):
                                                         (True, False), ("functor", "factory")):
         yield {"kind": "container-valued-elements", "cfg": _cfg(pool, 2, 1.0, None, 2 if pool == "factory" else None),
                "calls": [{"ordered": ordered, "n": n, "cs": cs, "elem": elem}]}
+    # elements that compare equal without being interchangeable (1 / True / 1.0, 0 / False / -0.0, (1,) / (True,)) in one chunk
+    for cs, ordered, pool in itertools.product((1, 3, 5, 12), (True, False), ("functor", "factory")):
+        yield {"kind": "equal-but-distinct-elements", "cfg": _cfg(pool, 2, 1.0, None, 2 if pool == "factory" else None),
+               "calls": [{"ordered": ordered, "n": 12, "cs": cs, "elem": "equal-but-distinct"}]}
     for kind, ordered, cs in itertools.product(("deque", "tuple", "range", "circular"), (True, False), (1, 2)):
         yield {"kind": "input-container", "cfg": _cfg("functor", 2, 1.0, None), "calls": [{"ordered": ordered, "n": 5, "cs": cs, "container": kind}]}
     for pool in ("functor", "factory"):
